@@ -101,6 +101,13 @@ def generate(plan) -> None:
         for d in ops:
             if d["op"] == "write" and r.random() < 0.03:
                 d["no_limits"] = True
+    if sc == "serial":  # a busy host: the loop services its timers late while writes are queued (own stream: other draws keep)
+        rs = plan.rng("gen/stall")
+        ws = [d["at"] for d in ops if d["op"] == "write"]
+        if ws and rs.random() < 0.5:
+            for _ in range(rs.choice([1, 1, 2, 4])):
+                ops.append({"op": "stall", "at": round(rs.choice(ws) + rs.choice([0.0, 0.01, 0.06, 0.3, 1.0]), 4),
+                            "dur": rs.choice([0.12, 0.3, 0.5, 1.0, 3.0])})
 
 
 class Sim:
@@ -176,10 +183,13 @@ async def run_serial(ctx) -> None:
                          f" I --- 01:145038 --:------ 01:145038 1F09 003 FF{secs:04X}", 0.0)
             loop.call_at(t_start + d["at"] + 0.03, hub.rx_line, ser,
                          " I --- 01:145038 --:------ 01:145038 2309 006 0007D00107D0", 0.0)
+    for d in plan.ops:
+        if d["op"] == "stall":
+            loop.add_stall(t_start + d["at"], d["dur"])
     tasks = [loop.create_task(writer_task(sim, tr, todo, t_start)) for todo in by_task.values()]
     n_calls = sum(len(v) for v in by_task.values())
     total_bits = sum(bits(frame_of(d["id"], d["n"])) for v in by_task.values() for d in v)
-    drain = total_bits / RATE + n_calls * GAP + plan.knob("horizon", 60) + 120
+    drain = total_bits / RATE + n_calls * GAP + plan.knob("horizon", 60) + 120 + sum(d["dur"] for d in plan.ops if d["op"] == "stall")
     done, pending = await asyncio.wait(tasks, timeout=drain) if tasks else (set(), set())
     if pending:
         ctx.violate("C11", "never_written", "", f"{len(pending)} writer tasks still blocked after {drain:.0f}s "
